@@ -38,7 +38,19 @@ Ident == <<thState, thCpu, ooc, [t \in DOMAIN ch |-> Compact(ch[t])],
 ASSUME PrintT(<<"SYS", ToJson([threads |-> System.threads, cpus |-> System.cpus,
                                 marks |-> System.marks, models |-> System.models])>>)
 
+\* thread-local context of the event's thread in the source state (used by the
+\* harness to stratify its sample of the transitions)
+BodySt(m, t) == [i \in 1..Len(tstack[<<m, t>>]) |->
+                   tbodies[BKey(m, t, tstack[<<m, t>>][i][1], tstack[<<m, t>>][i][2])].st]
+Ctx(t) == IF t = 0 THEN <<>>
+          ELSE <<thState[t], thCpu[t] # 0, ooc[t],
+                 [k \in {x \in DOMAIN ch[t] : ch[t][x] # <<>>} |-> <<Len(ch[t][k]), Top(ch[t][k])>>],
+                 BodySt("V", t), BodySt("6", t),
+                 [y \in {x \in DOMAIN mk[t] : mk[t][x] # <<>>} |-> Len(mk[t][y])],
+                 {u \in Threads : thCpu[u] = thCpu[t] /\ thState[u] = "running"} # {}>>
+
 Export == PrintT(<<"TR", ToJson([src |-> ToString(Ident), ev |-> last', first |-> (n = 0),
+                                  ctx |-> ToString(Ctx(last'.th)),
                                   ok |-> ~failed', un |-> unspec',
                                   dst |-> ToString(Ident'), fin |-> VerdictAll'])>>)
 
@@ -82,7 +94,8 @@ SysC06 == [threads |-> <<Th(101, 1001, 1, 1), Th(102, 1001, 1, 1)>>,
 ThreadEvs(T) == {E(t, m, <<>>) : t \in T, m \in {"OHp", "OHr", "OHc", "OHw", "OHe"}}
 AlphaC06 == ThreadEvs({1, 2})
             \cup {E(1, "OHx", <<0, 101, 7>>), E(2, "OHx", <<1, 101, 7>>), E(2, "OHx", <<0, 101, 7>>)}
-            \cup {E(t, "OAs", <<c>>) : t \in {1, 2}, c \in {0, 1}}
+            \cup {E(1, "OHx", <<-1, 101, 7>>), E(2, "OHx", <<-1, 101, 7>>)}      \* the virtual CPU may hold several running threads
+            \cup {E(t, "OAs", <<c>>) : t \in {1, 2}, c \in {0, 1, -1}}
             \cup {E(1, "OAr", <<1, 102>>), E(2, "OAr", <<0, 101>>)}
             \cup {G(t, "O", m) : t \in {1, 2}, m \in {"OF[", "OF]"}}
             \cup {G(t, "M", m) : t \in {1, 2}, m \in {"MUi", "MUI"}}
